@@ -141,6 +141,16 @@ def eval_case(sub, case):
         sub.oracle(case, rec)
     except CaseAbort:
         pass
+    except HarnessError:
+        raise
+    except Exception as e:
+        # An exception that escapes the oracle is a harness error - unless it was raised INSIDE pypose while the harness was
+        # preparing / post-processing a case with valid inputs (e.g. building arguments with pypose ops): on the unchanged tree
+        # that never happens (calibrated), on a modified tree it means pypose broke on a valid call.
+        fr = _frame_of(e)
+        if fr == "ext":
+            raise
+        rec.fail("raises:%s@%s" % (type(e).__name__, fr), "pypose raised %s on a valid call made by the harness: %s" % (type(e).__name__, str(e)[:400]))
     return rec
 
 
